@@ -106,7 +106,7 @@ func c01Run(c c01Case, st *vlib.Stats) string {
 	if err != nil {
 		return "setup failed: " + err.Error()
 	}
-	defer eng.Crash()
+	defer eng.Crash(true)
 	m := model.NewDB()
 	tr := NewIDTracker()
 	every := c.CheckEvery
